@@ -16,7 +16,12 @@ used again and again; between two evaluations the harness applies one legal muta
 every way torch offers, chains advanced with overwrite=True, every way of changing the parameters of the live state, other states
 on the same tensor, the same observables on another chain length ...).  After each mutation the oracle is the one above with rho
 rebuilt by numpy alone from the CURRENT parameters read from the live object, and the rows decoded from the CURRENT contents of
-the tensor."""
+the tensor.
+
+Encodings of the sample tensor (seed round 4): the same basis states handed over in every dtype x memory layout that the unchanged
+library evaluates correctly (table at ENC_*), on fixed states that run first, on every state of the random stream and in histories
+that alternate encodings on one pool of observables; the oracle is the same trace identity (tolerance widened by 4 rounding units
+of the dtype apply returns).  Dtypes the unchanged library rejects or mis-evaluates are evaluated and only counted."""
 import math, time, copy, os
 import numpy as np
 import gen
@@ -40,14 +45,33 @@ RULE = ("state types positive/complex/mixed, nv 1..5 in both tiers (quick: fewer
         "sum_s p(s) value(s) accumulated), 'objects' (several states / chain lengths alternating on the same tensor and the same observables; fresh tensors "
         "created and deleted in a loop; tensors returned by apply scribbled over by the caller); after every step: numpy rho from the current parameters, "
         "sum_s p(s)/Z apply(s) == Re tr(rho Op) whenever the tensor holds every basis state once, per-row values equal to those of a fresh full-basis "
-        "evaluation of the same state, tensor unchanged by apply, earlier returned values not altered by later calls")
+        "evaluation of the same state, tensor unchanged by apply, earlier returned values not altered by later calls; "
+        "ENCODINGS of the sample tensor (a block of 6 fixed states of all three types, nv 1..4, runs FIRST; then every state of the random stream; then "
+        "'encodings' histories): legal := the (observable, state type, dtype) triples the unchanged library evaluates to the right per-sample values - "
+        "ZZ: float64/32/16, bfloat16, uint8/16/32/64, int8/16/32/64, bool; Z: the four floating dtypes; X, Y on positive / complex states: the floating "
+        "dtypes and int8/16/32/64; X, Y on mixed states: float64 - crossed with the layouts contiguous, column-major, every second row / column of a larger "
+        "tensor, storage offsets, torch.from_numpy (C / Fortran / read-only), nn.Parameter, inference-mode tensor, zeros stored as -0.0, one row expanded "
+        "with stride 0, requires_grad=True (Z, ZZ); fixed states: every observable x every legal dtype on the full basis + every layout x three dtypes + "
+        "batches of 2051..4199 rows; random stream: per observable two drawn legal dtypes + one drawn (dtype, layout) on the full basis, one batch with "
+        "repeats per family, > 20000 rows in float16 / uint8 / int8 for Z and ZZ(c=1) on the very-long states; required: no exception, tensor (contents, "
+        "dtype, strides) unchanged, one real floating number per row, sum_s p(s)/Z apply(s) == Re tr(rho Op) within the double tolerance + 4 rounding units "
+        "of the returned dtype, |.| for absolute=True, rows of a batch equal to the float64 per-sample values; every other dtype (and complex128) is "
+        "evaluated on the fixed states and its outcome only counted ('informational')")
 ASSUMPTIONS = ["torch elementwise kernels implement the real functions up to rounding",
                "states with |effective energy| > 300 are skipped (double overflow in |psi|^2 products), counted as skipped_overflow",
                "histories: a mutation operator is the CALLER's action (torch in-place ops, fit, load, optimizer ...); when the operator itself raises, "
                "the step is skipped and counted ('history: mutation operator raised'), only apply / Observable.sample on the mutated objects are required to work",
                "OUT of scope of the histories: re-assigning the constructor attributes of a live observable (O.absolute, O.c, O.periodic_bcs - only the "
-               "constructor arguments are documented), so an implementation that prepares per-instance constants in __init__ is accepted; sample tensors of "
-               "other dtypes than double; GPU"]
+               "constructor arguments are documented), so an implementation that prepares per-instance constants in __init__ is accepted; GPU; the in-place "
+               "mutation scripts of the histories use double buffers (other dtypes: the 'encodings' script)",
+               "legal encodings of a sample tensor are those the unchanged library (HEAD 292381a, torch of /venv) evaluates to the right per-sample values "
+               "(measured; table at ENC_* in the check); entries are exactly 0 / 1 (False / True).  NOT legal, evaluated on the fixed states and only counted: "
+               "integer / bool samples for SigmaZ (mean() raises), bool and uint16/32/64 for SigmaX / SigmaY (raise), every dtype but float64 for SigmaX / SigmaY "
+               "on a DensityMatrix (raise), requires_grad=True for SigmaX / SigmaY (raise), complex dtypes (Z / ZZ come back complex), and torch.uint8 for "
+               "SigmaX / SigmaY on pure states, which the unchanged library ACCEPTS and evaluates WRONGLY (flip_spin's sub_(1).abs_() wraps 0 - 1 to 255): "
+               "reported to the integrator, not required here",
+               "values returned in a narrower floating dtype than double (float32 for integer samples, the sample dtype for float32/16/bfloat16 samples of Z / ZZ) "
+               "are compared with 4 rounding units of that dtype added to the tolerance"]
 
 I2 = np.eye(2, dtype=complex)
 PX = np.array([[0, 1], [1, 0]], dtype=complex)
@@ -76,6 +100,85 @@ def zz_op(n, c, pbc):
         for i in range(n - c):
             acc += site(PZ, i, n) @ site(PZ, i + c, n)
     return acc / n
+
+
+# --------------------------------------------------------------------------- ways of constructing an observable
+# Red-team round 2 (C08_2): the constructors were only ever called with keywords; /repo 149bb9b: a distance given as an unsigned numpy
+# integer used to wrap when negated.  Every documented call form of the constructors: keywords, positional in the documented order
+# (absolute) / (periodic_bcs, c), defaults left out, numpy scalars / 0-d arrays where a bool / an int is documented.
+NP_INT_FORMS = [("np.uint8", np.uint8), ("np.uint16", np.uint16), ("np.uint32", np.uint32), ("np.uint64", np.uint64), ("np.int8", np.int8),
+                ("np.int16", np.int16), ("np.int32", np.int32), ("np.int64", np.int64), ("0-d int64 array", lambda c: np.array(c)),
+                ("0-d uint8 array", lambda c: np.array(c, dtype=np.uint8))]
+
+
+def sigma_forms(cls, absolute):
+    """[(description, constructor)] - all of them must give the same observable"""
+    a = bool(absolute)
+    out = [("keyword: %s(absolute=%s)" % (cls.__name__, a), lambda: cls(absolute=a)),
+           ("positional: %s(%s)" % (cls.__name__, a), lambda: cls(a)),
+           ("numpy bool: %s(absolute=np.bool_(%s))" % (cls.__name__, a), lambda: cls(absolute=np.bool_(a)))]
+    if not a:
+        out.append(("default: %s()" % cls.__name__, lambda: cls()))
+    return out
+
+
+def zz_forms(pbc, c):
+    from qucumber.observables import NeighbourInteraction as NI
+    pbc, c = bool(pbc), int(c)
+    out = [("keyword: NeighbourInteraction(periodic_bcs=%s, c=%d)" % (pbc, c), lambda: NI(periodic_bcs=pbc, c=c)),
+           ("positional: NeighbourInteraction(%s, %d)" % (pbc, c), lambda: NI(pbc, c)),
+           ("positional boundary, keyword distance: NeighbourInteraction(%s, c=%d)" % (pbc, c), lambda: NI(pbc, c=c)),
+           ("keywords in the other order: NeighbourInteraction(c=%d, periodic_bcs=%s)" % (c, pbc), lambda: NI(c=c, periodic_bcs=pbc)),
+           ("numpy bool boundary: NeighbourInteraction(np.bool_(%s), %d)" % (pbc, c), lambda: NI(np.bool_(pbc), c))]
+    if not pbc:
+        out.append(("distance only: NeighbourInteraction(c=%d)" % c, lambda: NI(c=c)))
+    if c == 1:
+        out.append(("boundary only: NeighbourInteraction(%s)" % pbc, lambda: NI(pbc)))
+        if not pbc:
+            out.append(("defaults: NeighbourInteraction()", lambda: NI()))
+    for j, (tn, conv) in enumerate(NP_INT_FORMS):
+        if j % 2 == 0:
+            out.append(("numpy distance [%s]: NeighbourInteraction(%s, %s(%d))" % (tn, pbc, tn, c), lambda conv=conv: NI(pbc, conv(c))))
+        else:
+            out.append(("numpy distance [%s]: NeighbourInteraction(periodic_bcs=%s, c=%s(%d))" % (tn, pbc, tn, c), lambda conv=conv: NI(periodic_bcs=pbc, c=conv(c))))
+    return out
+
+
+def version_of(t):
+    """torch's write counter of a tensor (None where torch keeps none: inference tensors)"""
+    try:
+        return int(t._version)
+    except Exception:
+        return None
+
+
+class InjectedFault(Exception):
+    pass
+
+
+class FaultyState:
+    """Stands for a state in ONE apply call (red-team round 2, C08_3): every attribute is the real state's, but the k-th call of
+    importance_sampling_numerator / importance_sampling_weight raises.  Whatever apply does then, the CALLER's sample tensor must still hold
+    its values ("leaves the sample array unchanged" has no exception clause)."""
+
+    def __init__(self, state, k):
+        self.__dict__["_state"], self.__dict__["_k"], self.__dict__["_calls"] = state, int(k), 0
+
+    def __getattr__(self, name):
+        return getattr(self.__dict__["_state"], name)
+
+    def _tick(self):
+        self.__dict__["_calls"] += 1
+        if self.__dict__["_calls"] == self.__dict__["_k"]:
+            raise InjectedFault("fault injected by the harness into call %d of the state's importance-sampling functions" % self.__dict__["_k"])
+
+    def importance_sampling_numerator(self, *a, **kw):
+        self._tick()
+        return self.__dict__["_state"].importance_sampling_numerator(*a, **kw)
+
+    def importance_sampling_weight(self, *a, **kw):
+        self._tick()
+        return self.__dict__["_state"].importance_sampling_weight(*a, **kw)
 
 
 # --------------------------------------------------------------------------- building states
@@ -211,7 +314,7 @@ def very_long_done(ctx):
     return ctx._very_long_done
 
 
-def check_state(ctx, kind, nv, nh, na, params, with_model=True, very_long=False):
+def check_state(ctx, kind, nv, nh, na, params, with_model=True, very_long=False, encodings="draw"):
     import torch
     from qucumber.observables import SigmaX, SigmaY, SigmaZ, NeighbourInteraction
     case = {"state": kind, "nv": nv, "nh": nh, "na": na, "params": params}
@@ -251,13 +354,27 @@ def check_state(ctx, kind, nv, nh, na, params, with_model=True, very_long=False)
     margs = model_state_args(kind, params)
     mp = m.call("obs_pauli", *margs, sp) if m else None
 
+    formname = {}
+
+    def pick(name, forms):
+        """one documented way of constructing the observable, drawn per state from the encoding generator (every form: fixed states)"""
+        f, ctor = forms[int(enc_rng(ctx).integers(0, len(forms)))]
+        formname[name] = f
+        ctx.count("constructed: " + f.split(":")[0])
+        return ctor
+
     def run_apply(O, what, samples):
         before = samples.clone()
-        ok, out = ctx.call(what + ".apply", dict(case, observable=what), lambda: O.apply(s, samples))
+        c2 = dict(case, observable=what)
+        if what.split(" on a ")[0] in formname:
+            c2["constructed"] = formname[what.split(" on a ")[0]]
+        v0 = version_of(samples)
+        ok, out = ctx.call(what + ".apply", c2, lambda: O.apply(s, samples))
         if not ok:
             return None
-        c2 = dict(case, observable=what)
         ctx.require(what + ": sample tensor unchanged by apply", bool(torch.equal(samples, before)), c2)
+        ctx.require(what + ": sample tensor unchanged by apply", version_of(samples) == v0, c2,
+                    "contents equal, but the tensor's write counter moved from %r to %r: apply wrote into the caller's tensor (and restored it)" % (v0, version_of(samples)))
         good = (isinstance(out, torch.Tensor) and tuple(out.shape) == (samples.shape[0],) and out.dtype in (torch.float64, torch.float32)
                 and not torch.is_complex(out))
         ctx.require(what + ": one real number per sample row", bool(good), c2, {"shape": list(getattr(out, "shape", []))})
@@ -269,7 +386,7 @@ def check_state(ctx, kind, nv, nh, na, params, with_model=True, very_long=False)
         want = float(np.trace(rho_n @ Op).real)
         got = float(np.dot(w, out))
         ctx.require(what + ": sum_s p(s)/Z * apply(s) == Re tr(rho Op)", abs(got - want) <= 1e-8 + 1e-7 * abs(want),
-                    dict(case, observable=what), {"estimator_mean": got, "trace": want})
+                    dict(case, observable=what, constructed=formname.get(what)), {"estimator_mean": got, "trace": want})
 
     def variants(O, name, out, sc, with_long):
         """The same observable on other sample tensors: a single row, non-contiguous (strided) views, and a batch of
@@ -299,40 +416,54 @@ def check_state(ctx, kind, nv, nh, na, params, with_model=True, very_long=False)
                         dict(case, observable=name, batch=vname, rows=rows))
 
     paulis = [("SigmaX", SigmaX, PX, 0), ("SigmaY", SigmaY, PY, 1), ("SigmaZ", SigmaZ, PZ, 2)]
+    refs = []        # (name, family, constructor, dense operator or None, double-encoded reference values, row scale, twin) for the encoding pass
     batch_idx = ctx.rng.integers(0, N, size=5)
     batch = space[torch.tensor(batch_idx, dtype=torch.long)].clone()
     for name, cls, M, k in paulis:
-        out = run_apply(cls(absolute=False), name, space.clone())
+        mkF, mkT = pick(name, sigma_forms(cls, False)), pick(name + "(absolute)", sigma_forms(cls, True))
+        ok1, _ = ctx.call(name + ": constructor", dict(case, observable=name, constructed=formname[name]), mkF)
+        ok2, _ = ctx.call(name + ": constructor", dict(case, observable=name + "(absolute)", constructed=formname[name + "(absolute)"]), mkT)
+        if not (ok1 and ok2):
+            continue
+        out = run_apply(mkF(), name, space.clone())
         if out is None:
             continue
         oracle(name, out, mean_site(M, n))
-        out_abs = run_apply(cls(absolute=True), name + "(absolute)", space.clone())
+        out_abs = run_apply(mkT(), name + "(absolute)", space.clone())
         if out_abs is not None:
             ctx.require(name + ": absolute=True is the pointwise absolute value", bool(np.allclose(out_abs, np.abs(out), rtol=1e-12, atol=0)),
                         dict(case, observable=name + "(absolute)"))
         sc = rowscale if k < 2 else np.ones(N)
+        refs.append((name, name[-1], mkF, mean_site(M, n), out, sc, None, sigma_forms(cls, False)))
+        if out_abs is not None:
+            refs.append((name + "(absolute)", name[-1], mkT, None, out_abs, sc, name, sigma_forms(cls, True)))
         if mp is not None:
             ctx.agree(name + " per-sample value", out / sc, np.array(mp[k]) / sc, dict(case, observable=name), scale=1.0)
             if out_abs is not None:
                 ctx.agree(name + "(absolute) per-sample value", out_abs / sc, np.array(mp[3 + k]) / sc, dict(case, observable=name + "(absolute)"), scale=1.0)
-        ob = run_apply(cls(absolute=False), name + " on a batch", batch.clone())
+        ob = run_apply(mkF(), name + " on a batch", batch.clone())
         if ob is not None:
             ctx.require(name + ": value of a row does not depend on the rest of the batch",
                         bool(np.allclose(ob / sc[batch_idx], out[batch_idx] / sc[batch_idx], rtol=1e-9, atol=1e-12)), dict(case, observable=name, batch=batch_idx.tolist()))
-        variants(cls(absolute=False), name, out, sc, with_long=True)
+        variants(mkF(), name, out, sc, with_long=True)
         if out_abs is not None:
-            variants(cls(absolute=True), name + "(absolute)", out_abs, sc, with_long=False)
+            variants(mkT(), name + "(absolute)", out_abs, sc, with_long=False)
     for pbc in (False, True):
         c_long = int(ctx.rng.integers(1, n + 1))
         for c in range(1, n + 1):
             name = "NeighbourInteraction(pbc=%s,c=%d)" % (pbc, c)
-            out = run_apply(NeighbourInteraction(periodic_bcs=pbc, c=c), name, space.clone())
+            mkZ = pick(name, zz_forms(pbc, c))
+            ok, O = ctx.call(name + ": constructor", dict(case, observable=name, constructed=formname[name]), mkZ)
+            if not ok:
+                continue
+            out = run_apply(O, name, space.clone())
             if out is None:
                 continue
             oracle(name, out, zz_op(n, c, pbc))
+            refs.append((name, "ZZ", mkZ, zz_op(n, c, pbc), out, np.ones(N), None, zz_forms(pbc, c)))
             if m:
                 ctx.agree(name + " per-sample value", out, m.call("obs_neighbour", 1 if pbc else 0, c, sp), dict(case, observable=name), scale=1.0)
-            variants(NeighbourInteraction(periodic_bcs=pbc, c=c), name, out, np.ones(N), with_long=(c == c_long))
+            variants(mkZ(), name, out, np.ones(N), with_long=(c == c_long))
             ctx.count("neighbour")
 
     # importance-sampling numerator / denominator / weight against the model and against the matrix
@@ -354,7 +485,367 @@ def check_state(ctx, kind, nv, nh, na, params, with_model=True, very_long=False)
             ctx.agree("importance denominator", (den / s_den).T, [[x[1][0] / s_den, x[1][1] / s_den] for x in mw], case, scale=1.0)
             ws = np.maximum(1.0, np.abs(want))
             ctx.agree("importance weight", (wt / ws).T, [[x[2][0] / ws[i], x[2][1] / ws[i]] for i, x in enumerate(mw)], case, scale=1.0)
+    if encodings:
+        check_encodings(ctx, s, kind, n, sp, rho_n, w, refs, case, encodings, very_long=very_long)
     ctx.traces += 1
+
+
+# =========================================================================== ENCODINGS of the sample tensor
+# Seed round 4 (C08d): to_pm1 rewritten with operator arithmetic that keeps the dtype of the sample tensor + a plain division in
+# NeighbourInteraction.apply: on torch.uint8 samples bit 0 became 255 instead of -1 and the ZZ estimator was wrong, every other
+# encoding stayed exact.  The class: the value depends on HOW the caller stores the 0/1 bits (dtype, strides, storage offset,
+# numpy-backed / read-only memory, Parameter, inference-mode tensor, negative zeros, requires_grad) although each entry is exactly 0 or 1.
+#
+# LEGAL encodings := those the UNCHANGED library (HEAD 292381a, torch of /venv) evaluates to the right per-sample values, measured
+# for every observable x state type x dtype (tools: the probe is reproduced by the 'informational' counters of the fixed block):
+#   ZZ (NeighbourInteraction) : every real dtype - float64/32/16, bfloat16, uint8/16/32/64, int8/16/32/64, bool  (all state types)
+#   Z                         : float64/32/16, bfloat16                      (integer and bool samples: mean() raises)
+#   X, Y, positive / complex  : float64/32/16, bfloat16, int8/16/32/64       (bool raises; uint8 is accepted but WRONG: flip_spin's
+#                               sub_(1).abs_() wraps 0 - 1 to 255 - recorded as informational, reported to the integrator)
+#   X, Y, mixed               : float64 only                                 (every other dtype: "mat1 and mat2 must have the same dtype")
+# Everything else (and complex dtypes, whose Z / ZZ values come back complex) is evaluated once per fixed state and only COUNTED.
+ENC_FLOATS = ("float64", "float32", "float16", "bfloat16")
+ENC_SINTS = ("int8", "int16", "int32", "int64")
+ENC_UINTS = ("uint8", "uint16", "uint32", "uint64")
+ENC_ALL = ENC_FLOATS + ENC_UINTS[:1] + ENC_SINTS + ("bool",) + ENC_UINTS[1:]
+ENC_INFO_ONLY = ("complex128",)
+
+
+def enc_legal(family, kind):
+    """dtype names that are legal encodings for the observable family ('X', 'Y', 'Z', 'ZZ') on a state of this type"""
+    import torch
+    if family == "ZZ":
+        names = ENC_ALL
+    elif family == "Z":
+        names = ENC_FLOATS
+    else:
+        names = ("float64",) if kind == "mixed" else ENC_FLOATS + ENC_SINTS
+    return [d for d in names if hasattr(torch, d)]
+
+
+def enc_rng(ctx):
+    """generator of the encoding passes: derived from the seed, separate from ctx.rng (whose stream stays what it was)"""
+    if not hasattr(ctx, "_c08_enc_rng"):
+        ctx._c08_enc_rng = np.random.Generator(np.random.PCG64([int(ctx.seed) & 0xFFFFFFFF, 0xC08D]))
+    return ctx._c08_enc_rng
+
+
+def out_eps(dt):
+    """rounding unit of the dtype apply returned (0 for double: the double tolerances of the main pass apply unchanged)"""
+    import torch
+    return 0.0 if dt == torch.float64 else float(torch.finfo(dt).eps)
+
+
+def enc_layouts():
+    """{name: (fn(x64, dtype) -> tensor of that dtype holding the rows of x64, dtype filter, family filter)}.  Containers are built
+    in double and converted as a whole, so that no arithmetic is ever done by the harness in an exotic dtype; the tensor handed to
+    apply is then a VIEW of the converted container (or a wrapper of it)."""
+    import torch
+    import warnings
+    anyd = lambda d: True
+    anyf = lambda f: True
+    junk = lambda x: 1.0 - x
+
+    def via_numpy(order=None, readonly=False):
+        def mk(x, dt):
+            a = x.to(dt).numpy().copy()
+            if order == "F":
+                a = np.asfortranarray(a)
+            if readonly:
+                a.setflags(write=False)
+            with warnings.catch_warnings():
+                warnings.simplefilter("ignore")
+                return torch.from_numpy(a)
+        return mk
+
+    def negzero(x, dt):
+        t = x.to(dt)
+        t[t == 0] = -0.0
+        return t
+
+    def inference(x, dt):
+        with torch.inference_mode():
+            return x.to(dt).clone()
+
+    n_of = lambda x: x.shape[1]
+    return {
+        "contiguous": (lambda x, dt: x.to(dt), anyd, anyf),
+        "column-major storage": (lambda x, dt: x.t().contiguous().to(dt).t(), anyd, anyf),
+        "every second row of a larger tensor": (lambda x, dt: torch.stack([x, junk(x)], 1).reshape(2 * len(x), n_of(x)).to(dt)[::2], anyd, anyf),
+        "every second column of a wider tensor": (lambda x, dt: torch.stack([x, junk(x)], 2).reshape(len(x), 2 * n_of(x)).to(dt)[:, ::2], anyd, anyf),
+        "right half of a wider tensor (storage offset)": (lambda x, dt: torch.cat([junk(x), x], 1).to(dt)[:, n_of(x):], anyd, anyf),
+        "rows 2.. of a longer tensor (storage offset)": (lambda x, dt: torch.cat([junk(x[:2]), x], 0).to(dt)[2:], anyd, anyf),
+        "torch.from_numpy (C order)": (via_numpy(), lambda d: d != "bfloat16", anyf),
+        "torch.from_numpy (Fortran order)": (via_numpy("F"), lambda d: d != "bfloat16", anyf),
+        "torch.from_numpy of a read-only array": (via_numpy(readonly=True), lambda d: d != "bfloat16", anyf),
+        "nn.Parameter(requires_grad=False)": (lambda x, dt: torch.nn.Parameter(x.to(dt), requires_grad=False), anyd, anyf),
+        "created under inference_mode": (inference, anyd, anyf),
+        "zeros stored as -0.0": (negzero, lambda d: d in ENC_FLOATS, anyf),
+        # X / Y on a tensor that requires grad raise on the unchanged tree (in-place op with out= on a graph tensor): Z and ZZ only
+        "requires_grad=True": (lambda x, dt: x.to(dt).requires_grad_(True), lambda d: d in ENC_FLOATS, lambda f: f in ("Z", "ZZ")),
+    }
+
+
+def as_f64(t):
+    return np.array(t.detach().to("cpu").to(__import__("torch").float64).numpy(), dtype=float, copy=True)
+
+
+def enc_apply(ctx, s, O, name, x, case):
+    """O.apply(s, x) on an encoded tensor: no exception, x unchanged (contents, dtype, shape, strides), one real number per row.
+    Returns (values as float64 array, rounding unit of the returned dtype) or None."""
+    import torch
+    before = as_f64(x)
+    meta = (x.dtype, tuple(x.shape), tuple(x.stride()))
+    v0 = version_of(x)
+    ok, out = ctx.call(name + ".apply", case, lambda: O.apply(s, x))
+    if not ok:
+        return None
+    same = bool(np.array_equal(as_f64(x), before)) and meta == (x.dtype, tuple(x.shape), tuple(x.stride()))
+    ctx.require(name + ": sample tensor unchanged by apply", same, case)
+    ctx.require(name + ": sample tensor unchanged by apply", version_of(x) == v0, case,
+                "contents equal, but the tensor's write counter moved from %r to %r: apply wrote into the caller's tensor (and restored it)" % (v0, version_of(x)))
+    good = (isinstance(out, torch.Tensor) and tuple(out.shape) == (x.shape[0],) and out.is_floating_point() and not torch.is_complex(out))
+    ctx.require(name + ": one real number per sample row", bool(good), case,
+                {"shape": list(getattr(out, "shape", [])), "dtype": str(getattr(out, "dtype", type(out)))})
+    if not good:
+        return None
+    return as_f64(out), out_eps(out.dtype)
+
+
+def enc_informational(ctx, s, kind, n, sp, refs):
+    """Encodings OUTSIDE the legal table: evaluated once, the outcomes counted in the evidence histogram (one key per observable family
+    and state type), nothing required."""
+    import torch
+    import warnings
+    x64 = torch.tensor(sp, dtype=torch.double)
+    for name, fam, ctor, Op, ref, sc, twin, forms in refs:
+        if twin is not None or (fam == "ZZ" and not name.endswith("pbc=False,c=1)")):
+            continue
+        legal = enc_legal(fam, kind)
+        res = {}
+        trials = [(dn, lambda dn=dn: x64.to(getattr(torch, dn))) for dn in list(ENC_ALL) + list(ENC_INFO_ONLY) if dn not in legal and hasattr(torch, dn)]
+        if fam in ("X", "Y"):
+            trials.append(("float64+requires_grad", lambda: x64.clone().requires_grad_(True)))
+        for dn, mk in trials:
+            try:
+                with warnings.catch_warnings():
+                    warnings.simplefilter("ignore")
+                    out = ctor().apply(s, mk())
+                if not (isinstance(out, torch.Tensor) and out.is_floating_point() and tuple(out.shape) == (len(sp),)):
+                    r = "not one real number per row"
+                else:
+                    v = as_f64(out)
+                    r = "right values" if np.all(np.abs(v - ref) <= (1e-9 + 4 * out_eps(out.dtype)) * sc) else "WRONG VALUES RETURNED SILENTLY"
+            except Exception as e:
+                r = "raises"
+            res.setdefault(r, []).append(dn)
+        if res:
+            ctx.count("informational (encodings outside the legal table, nothing required): %s, %s state: %s"
+                      % (fam if fam == "ZZ" else "Sigma" + fam, kind, "; ".join("%s: %s" % (r, " ".join(d)) for r, d in sorted(res.items()))))
+
+
+def fault_pass(ctx, s, ref_entry, n, sp, kf, case, rng):
+    """A fault inside the state during apply, then an ordinary evaluation on the SAME tensor (red-team round 2, C08_3: flip the caller's
+    tensor in place, evaluate, flip back - a fault in between left the caller's tensor modified).  Required: after the aborted call the tensor
+    holds what it held (the exception itself is the harness's; if apply swallows it or never calls the function, nothing more is asked);
+    the ordinary evaluation that follows gives the per-sample values."""
+    import torch
+    name, fam, ctor, Op, ref, sc, twin, forms = ref_entry
+    N = len(sp)
+    ridx = rng.permutation(N)[:max(1, min(N, int(rng.integers(1, 7))))]
+    x = torch.tensor(sp[ridx], dtype=torch.double)
+    c2 = dict(case, observable=name, rows=ridx.tolist(), fault="the state's importance_sampling_numerator / _weight raises at its call number %d during apply" % kf)
+    ok, O = ctx.call(name + ": constructor", c2, ctor)
+    if not ok:
+        return
+    before = as_f64(x)
+    ctx.count("fault injected into the state during apply")
+    try:
+        O.apply(FaultyState(s, kf), x)
+        ctx.count("fault injected into the state during apply: apply returned normally")
+    except InjectedFault:
+        pass
+    except Exception:
+        ctx.count("fault injected into the state during apply: another exception came out (accepted)")
+    ctx.require(name + ": sample tensor unchanged by apply", bool(np.array_equal(as_f64(x), before)), c2,
+                {"rows_before": before.tolist()[:6], "rows_after_the_aborted_apply": as_f64(x).tolist()[:6]})
+    x2 = torch.tensor(sp[ridx], dtype=torch.double)
+    r = enc_apply(ctx, s, O, name, x2, dict(c2, after="an apply of the same observable instance was aborted by the fault; this is the next, ordinary call"))
+    if r is not None:
+        vals, eps = r
+        want = ref[ridx]
+        ctx.require(name.replace("(absolute)", "") + ": value of a row does not depend on the rest of the batch",
+                    bool(np.all(np.abs(vals - want) <= 1e-9 * np.abs(want) + (1e-12 + 4 * eps) * sc[ridx])),
+                    dict(c2, batch="ordinary call after an apply aborted by a fault inside the state"))
+
+
+def check_encodings(ctx, s, kind, n, sp, rho_n, w, refs, case, mode, very_long=False):
+    """The observables of one state on OTHER ENCODINGS of the same basis states.
+    refs: what check_state measured on the plain double tensor (already verified against the trace).
+    mode 'all'  : every observable x every legal dtype (contiguous, full basis), every observable x every layout x (float64 + two
+                  rotating legal dtypes), batches with repeats (long, odd length; one row expanded with stride 0), informational counts;
+    mode 'draw' : every observable x two drawn legal non-double dtypes and one drawn dtype on a drawn layout (full basis), one batch
+                  with repeats per observable family.
+    Required (only what C08 states): apply does not raise, leaves the tensor alone, returns one real number per row; on the full basis
+    sum_s p(s)/Z apply(s) == Re tr(rho Op) (absolute=True: |.| of the absolute=False values in the same encoding); on other batches each
+    row's value is the per-sample value of its basis state.  Tolerances: the double ones of the main pass + 4 rounding units of the
+    dtype apply returned (the unchanged tree is within 0.5 of a unit: float32 4e-8, float16 3e-4, bfloat16 3e-3 measured)."""
+    import torch
+    rng = enc_rng(ctx)
+    N = len(sp)
+    x64 = torch.tensor(sp, dtype=torch.double)
+    layouts = enc_layouts()
+    lnames = list(layouts)
+    # only for batches of identical rows: ONE stored row, stride 0 along the batch
+    layouts["one row expanded to several rows (stride 0)"] = ((lambda x, dt_: x[:1].to(dt_).expand(len(x), x.shape[1])), lambda d: True, lambda f: True)
+    full = np.arange(N)
+
+    def one(name, fam, ctor, Op, ref, sc, twin, dn, lname, ridx, cache, form=None):
+        dt = getattr(torch, dn)
+        mk, dok, fok = layouts[lname]
+        if not (dok(dn) and fok(fam)):
+            return False
+        is_full = len(ridx) == N and np.array_equal(ridx, full)
+        rows = "all %d basis states in order" % N if is_full else (ridx.tolist() if len(ridx) <= 8 else "%d rows" % len(ridx))
+        c2 = dict(case, observable=name, sample_dtype=dn, sample_layout=lname, rows=rows)
+        if form is not None:
+            c2["constructed"] = form
+        ok, O = ctx.call(name + ": constructor", c2, ctor)
+        if not ok:
+            return True
+        try:
+            x = mk(x64[torch.tensor(ridx, dtype=torch.long)].clone(), dt)
+            assert x.dtype == dt and np.array_equal(as_f64(x), sp[ridx])
+        except Exception:
+            ctx.count("encoding: the harness could not build (%s, %s), skipped" % (dn, lname))
+            return False
+        ctx.count("encoding dtype:" + dn)
+        ctx.count("encoding layout:" + lname)
+        r = enc_apply(ctx, s, O, name, x, c2)
+        if r is None:
+            return True
+        vals, eps = r
+        if is_full and form is None:
+            cache[(name, dn, lname)] = vals
+            if Op is not None:
+                want = float(np.trace(rho_n @ Op).real)
+                got = float(np.dot(w, vals))
+                tol = 1e-8 + 1e-7 * abs(want) + 4 * eps * float(np.dot(w, sc))
+                ctx.require(name + ": sum_s p(s)/Z * apply(s) == Re tr(rho Op)", abs(got - want) <= tol, c2,
+                            {"estimator_mean": got, "trace": want, "values": vals[:8].tolist(), "values_on_the_float64_tensor": ref[:8].tolist()})
+            elif (twin, dn, lname) in cache and form is None:
+                base = cache[(twin, dn, lname)]
+                ctx.require(twin + ": absolute=True is the pointwise absolute value",
+                            bool(np.all(np.abs(vals - np.abs(base)) <= (1e-12 + 4 * eps) * np.maximum(1.0, np.abs(base)))), c2)
+        else:
+            want = ref[ridx]
+            bad = np.abs(vals - want) > 1e-9 * np.abs(want) + (1e-12 + 4 * eps) * sc[ridx]
+            ctx.require(name.replace("(absolute)", "") + ": value of a row does not depend on the rest of the batch", not bool(np.any(bad)),
+                        dict(c2, batch="rows with repeats in another encoding; reference: the float64 full-basis evaluation"),
+                        {"row": int(np.argmax(bad)), "got": float(vals[int(np.argmax(bad))]), "value_on_the_float64_tensor": float(want[int(np.argmax(bad))])})
+        return True
+
+    cache = {}
+    fams_batched = set()
+    xy = [r for r in refs if r[1] in ("X", "Y")]
+    if mode != "all" and xy:
+        # the state fails in the middle of one X / Y evaluation (drawn observable, drawn call)
+        r = xy[int(rng.integers(0, len(xy)))]
+        fault_pass(ctx, s, r, n, sp, int(rng.integers(1, n + 1)), case, rng)
+    for k, (name, fam, ctor, Op, ref, sc, twin, forms) in enumerate(refs):
+        legal = enc_legal(fam, kind)
+        others = [d for d in legal if d != "float64"]
+        args = (name, fam, ctor, Op, ref, sc, twin)
+        if mode == "all":
+            # every documented way of constructing this observable (on the plain double tensor: full basis -> trace identity, |.| -> per row)
+            for fname, fctor in forms:
+                ctx.count("constructed: " + fname.split(":")[0])
+                if Op is not None:
+                    one(name, fam, fctor, Op, ref, sc, twin, "float64", "contiguous", full, cache, form=fname)
+                else:
+                    one(name, fam, fctor, Op, ref, sc, twin, "float64", "contiguous", np.concatenate([full, full[:1]]), cache, form=fname)
+            if fam in ("X", "Y"):
+                for kf in range(1, n + 1):
+                    fault_pass(ctx, s, refs[k], n, sp, kf, case, rng)
+            for dn in legal:
+                one(*args, dn, "contiguous", full, cache)
+            for j, lname in enumerate(lnames[1:]):
+                dns = ["float64"] + ([others[(k + 2 * j) % len(others)], others[(k + 2 * j + 1) % len(others)]] if others else [])
+                for dn in dict.fromkeys(dns):
+                    one(*args, dn, lname, full, cache)
+            for dn in dict.fromkeys(["float64"] + others[k % max(1, len(others)):][:1] + (["uint8"] if "uint8" in legal else [])):
+                B = int(rng.integers(1025, 2100)) * 2 + 1
+                one(*args, dn, lnames[int(rng.integers(0, 6))], (int(rng.integers(0, N)) + np.arange(B) * int(rng.integers(1, 4))) % N, cache)
+                one(*args, dn, "one row expanded to several rows (stride 0)", np.full(int(rng.integers(2, 9)), int(rng.integers(0, N))), cache)
+        else:
+            picks = [others[i] for i in rng.permutation(len(others))[:2]] if others else []
+            if fam == "ZZ" and "uint8" in others and "uint8" not in picks and rng.random() < 0.5:
+                picks[0] = "uint8"
+            for dn in picks:
+                one(*args, dn, "contiguous", full, cache)
+            # a drawn layout: with a drawn legal dtype (float64 included - for mixed X / Y it is the only one)
+            for _ in range(4):
+                if one(*args, legal[int(rng.integers(0, len(legal)))], lnames[int(rng.integers(1, len(lnames)))], full, cache):
+                    break
+            if fam not in fams_batched and twin is None:
+                fams_batched.add(fam)
+                dn = legal[int(rng.integers(0, len(legal)))]
+                B = int(rng.integers(3, 40))
+                if rng.random() < 0.35:
+                    one(*args, dn, "one row expanded to several rows (stride 0)", np.full(int(rng.integers(2, 9)), int(rng.integers(0, N))), cache)
+                else:
+                    one(*args, dn, lnames[int(rng.integers(0, 6))], rng.integers(0, N, size=B), cache)
+        if very_long and twin is None and fam in ("Z", "ZZ") and (fam == "Z" or name.endswith("c=1)")):
+            # > 20000 rows in a narrow encoding (a sum over the batch kept in the sample dtype would leave its exact range)
+            for dn in [d for d in ("float16", "uint8", "int8", "bfloat16") if d in legal][:2]:
+                Bv = 20001 + 2 * int(rng.integers(0, 3000))
+                ctx.count("batch:very long batch in a narrow encoding")
+                one(*args, dn, "contiguous", (int(rng.integers(0, N)) + np.arange(Bv)) % N, cache)
+    if mode == "all":
+        enc_informational(ctx, s, kind, n, sp, refs)
+    ctx.count("encoding passes:" + mode)
+
+
+FIXED_ENCODING_STATES = [
+    {"kind": "positive", "nv": 2, "nh": 2, "na": 0, "pseed": 840001},
+    {"kind": "complex", "nv": 3, "nh": 2, "na": 0, "pseed": 840002},
+    {"kind": "mixed", "nv": 2, "nh": 2, "na": 2, "pseed": 840003},
+    {"kind": "positive", "nv": 1, "nh": 1, "na": 0, "pseed": 840004},
+    {"kind": "mixed", "nv": 3, "nh": 3, "na": 2, "pseed": 840005},
+    {"kind": "complex", "nv": 4, "nh": 3, "na": 0, "pseed": 840006},
+]
+
+
+def fixed_params(spec):
+    """parameters of a fixed encoding state: N(0, 0.8), no bias entry near 0, phase aux bias 0 (own generator, independent of the seed)"""
+    g = np.random.Generator(np.random.PCG64(int(spec["pseed"])))
+
+    def v(shape, bias=False):
+        x = g.normal(size=shape) * 0.8
+        if bias:
+            x[np.abs(x) < 1e-2] = 0.37
+        return x
+    kind, nv, nh, na = spec["kind"], spec["nv"], spec["nh"], spec["na"]
+    if kind == "mixed":
+        return {"am": gen.plist(v((nh, nv)), v((na, nv)), v(nv, True), v(nh, True), v(na, True)),
+                "ph": gen.plist(v((nh, nv)), v((na, nv)), v(nv, True), v(nh, True), np.zeros(na))}
+    out = {"am": gen.plist(v((nh, nv)), v(nv, True), v(nh, True))}
+    if kind == "complex":
+        out["ph"] = gen.plist(v((nh, nv)), v(nv, True), v(nh, True))
+    return out
+
+
+def fixed_encoding_block(ctx):
+    """Runs FIRST: every observable x every legal dtype x every layout on fixed states of all three types (independent of VERIF_SEED)."""
+    saved = ctx.rng
+    try:
+        for spec in FIXED_ENCODING_STATES:
+            # check_state draws its batches from ctx.rng: a private generator here, so that the seed's stream starts where it always did
+            ctx.rng = np.random.Generator(np.random.PCG64(int(spec["pseed"]) + 1))
+            check_state(ctx, spec["kind"], spec["nv"], spec["nh"], spec["na"], fixed_params(spec), with_model=False, encodings="all")
+            ctx.count("fixed encoding states")
+    finally:
+        ctx.rng = saved
 
 
 # =========================================================================== histories on the SAME objects
@@ -405,13 +896,14 @@ def obs_table(n):
         return _OBS_CACHE[n]
     from qucumber.observables import SigmaX, SigmaY, SigmaZ, NeighbourInteraction
     tab = []
+    # the way of constructing each instance rotates through the documented call forms (positional / keyword / defaults / numpy scalars)
+    rot = lambda forms: forms[(len(tab) + n) % len(forms)][1]
     for name, cls, M in (("SigmaX", SigmaX, PX), ("SigmaY", SigmaY, PY), ("SigmaZ", SigmaZ, PZ)):
-        tab.append((name, (lambda cls=cls: cls(absolute=False)), mean_site(M, n), None))
-        tab.append((name + "(absolute)", (lambda cls=cls: cls(absolute=True)), None, name))
+        tab.append((name, rot(sigma_forms(cls, False)), mean_site(M, n), None))
+        tab.append((name + "(absolute)", rot(sigma_forms(cls, True)), None, name))
     for pbc in (False, True):
         for c in range(1, n + 1):
-            tab.append(("NeighbourInteraction(pbc=%s,c=%d)" % (pbc, c),
-                        (lambda pbc=pbc, c=c: NeighbourInteraction(periodic_bcs=pbc, c=c)), zz_op(n, c, pbc), None))
+            tab.append(("NeighbourInteraction(pbc=%s,c=%d)" % (pbc, c), rot(zz_forms(pbc, c)), zz_op(n, c, pbc), None))
     _OBS_CACHE[n] = tab
     return tab
 
@@ -505,12 +997,16 @@ def h_apply(H, box, O, name, buf, fresh=False, what=None):
     ctx = H.ctx
     before = buf.clone()
     meta = (buf.dtype, tuple(buf.shape), tuple(buf.stride()), bool(buf.requires_grad))
+    v0 = version_of(buf)
     ok, out = ctx.call((what or name) + ".apply", H.case(box, name), lambda: O.apply(box.s, buf))
     if not ok:
         return None, None
     same = bool(torch.equal(buf, before)) and meta == (buf.dtype, tuple(buf.shape), tuple(buf.stride()), bool(buf.requires_grad))
     if not same:
         ctx.require(name + ": sample tensor unchanged by apply", False, H.case(box, name, rows_before=before.tolist()[:16]))
+    elif version_of(buf) != v0:
+        ctx.require(name + ": sample tensor unchanged by apply", False, H.case(box, name),
+                    "contents equal, but the tensor's write counter moved from %r to %r: apply wrote into the caller's tensor (and restored it)" % (v0, version_of(buf)))
     good = (isinstance(out, torch.Tensor) and tuple(out.shape) == (buf.shape[0],) and out.dtype in (torch.float64, torch.float32)
             and not torch.is_complex(out))
     if not good:
@@ -1137,8 +1633,96 @@ def script_solo_params(H):
     return box
 
 
+def obs_family(name):
+    return name[5] if name.startswith("Sigma") else "ZZ"
+
+
+def enc_evaluate(H, box, x, perm, dn, lname, label):
+    """the pool's observables on the encoded tensor x (holding the basis in the order perm): the trace identity in that encoding"""
+    import torch
+    ctx = H.ctx
+    H.step += 1
+    H.log.append(label)
+    ctx.count("history evaluations (encoded tensors)")
+    pool = obs_pool(ctx)
+    vals = {}
+    tab = obs_table(box.nv)
+    r = (3 * H.step) % len(tab)
+    for name, ctor, Op, twin in tab[r:] + tab[:r]:
+        fam = obs_family(name)
+        if dn not in enc_legal(fam, box.kind) or not enc_layouts()[lname][2](fam):
+            continue
+        if name not in pool:
+            pool[name] = ctor()
+        c2 = H.case(box, name, sample_dtype=dn, sample_layout=lname, rows_now=perm.tolist()[:32], after=label)
+        res = enc_apply(ctx, box.s, pool[name], name, x, c2)
+        if res is None:
+            continue
+        vals[name] = res
+    for name, ctor, Op, twin in tab:
+        if name not in vals:
+            continue
+        v, eps = vals[name]
+        c2 = H.case(box, name, sample_dtype=dn, sample_layout=lname, rows_now=perm.tolist()[:32], after=label)
+        if Op is not None:
+            want, got = float(np.trace(box.rho_n @ Op).real), float(np.dot(box.w[perm], v))
+            sc = box.sc[perm] if obs_family(name) in ("X", "Y") else np.ones(len(perm))
+            if not abs(got - want) <= 1e-8 + 1e-7 * abs(want) + 4 * eps * float(np.dot(box.w[perm], sc)):
+                ctx.require(name + ": sum_s p(s)/Z * apply(s) == Re tr(rho Op)", False, c2, {"estimator_mean": got, "trace": want, "values": v[:8].tolist()})
+        elif twin in vals:
+            b = vals[twin][0]
+            if not np.all(np.abs(v - np.abs(b)) <= (1e-12 + 4 * eps) * np.maximum(1.0, np.abs(b))):
+                ctx.require(twin + ": absolute=True is the pointwise absolute value", False, c2)
+
+
+def script_encodings(H):
+    """ONE pool of observable instances, ONE state: the basis handed over in encoding after encoding (dtype x layout).  Every encoded
+    tensor is evaluated, refilled IN PLACE with the basis in another order and evaluated again (a memo keyed by the tensor object or by
+    shape alone - not by dtype - goes stale here); the float64 buffer of the ordinary histories is evaluated in between."""
+    import torch
+    spec = H.spec
+    box = new_state(H, spec["kind"], spec["nv"])
+    if not box.finite:
+        H.ctx.count("history: skipped_overflow")
+        return box
+    N = len(box.sp)
+    T = lambda a: torch.tensor(np.asarray(a), dtype=torch.double)
+    layouts = enc_layouts()
+    frozen = ("torch.from_numpy of a read-only array", "created under inference_mode", "requires_grad=True")
+    buf64, _ = make_buffer(H, box, "plain")
+    evaluate(H, box, buf64, "initial contents (float64 buffer)")
+    dns = [d for d in ENC_ALL if hasattr(torch, d)]
+    if spec.get("shuffle"):
+        dns = [dns[i] for i in H.rng.permutation(len(dns))][:spec.get("n_ops", len(dns))]
+    lnames = list(layouts)
+    for k, dn in enumerate(dns):
+        lname = lnames[(k + H.bits(len(lnames))) % len(lnames)] if spec.get("shuffle") else lnames[(2 * k + int(spec["hseed"])) % len(lnames)]
+        if not layouts[lname][1](dn):
+            lname = "contiguous"
+        perm = H.rng.permutation(N)
+        try:
+            x = layouts[lname][0](T(box.sp[perm]), getattr(torch, dn))
+        except Exception as e:
+            H.mutation_failed("building the encoded tensor", e)
+            continue
+        H.ctx.count("history op: basis in encoding " + dn)
+        enc_evaluate(H, box, x, perm, dn, lname, "fresh %s tensor (%s)" % (dn, lname))
+        if lname not in frozen:
+            perm = np.roll(perm, 1 + H.bits(max(1, N - 1)))
+            try:
+                x.copy_(T(box.sp[perm]))
+            except Exception as e:
+                H.mutation_failed("copy_ into the encoded tensor", e)
+                continue
+            enc_evaluate(H, box, x, perm, dn, lname, "the same %s tensor refilled in place by copy_ (%s)" % (dn, lname))
+        if k % 3 == 2:
+            buf64.copy_(T(other_perm(H, box, buf64)))
+            evaluate(H, box, buf64, "float64 buffer refilled by copy_, after the %s tensor" % dn)
+    return box
+
+
 SCRIPTS = {"buffer": script_buffer, "params": script_params, "stream": script_stream, "objects": script_objects,
-           "solo": script_solo, "solo_params": script_solo_params}
+           "solo": script_solo, "solo_params": script_solo_params, "encodings": script_encodings}
 
 FIXED_HISTORIES = [
     {"script": "buffer", "kind": "positive", "nv": 2, "buffer": "plain", "hseed": 810001},
@@ -1159,6 +1743,9 @@ FIXED_HISTORIES = [
     {"script": "solo_params", "kind": "complex", "nv": 3, "buffer": "returned by generate_hilbert_space", "hseed": 810016, "n_ops": 6},
     {"script": "solo", "kind": "positive", "nv": 2, "buffer": "returned by sample", "hseed": 810017},
     {"script": "solo_params", "kind": "positive", "nv": 2, "buffer": "plain", "hseed": 810018, "n_ops": 17},
+    {"script": "encodings", "kind": "complex", "nv": 2, "hseed": 810019},
+    {"script": "encodings", "kind": "mixed", "nv": 3, "hseed": 810020},
+    {"script": "encodings", "kind": "positive", "nv": 3, "hseed": 810021},
 ]
 
 
@@ -1192,7 +1779,9 @@ def random_history_spec(ctx):
 
 
 def run(ctx):
-    # fixed histories on the same objects: independent of VERIF_SEED, always first
+    # fixed states in every legal encoding of the sample tensor (dtype x layout): independent of VERIF_SEED, always first
+    fixed_encoding_block(ctx)
+    # fixed histories on the same objects: independent of VERIF_SEED
     for spec in FIXED_HISTORIES:
         run_history(ctx, dict(spec))
     # nv 1..5 in both tiers (the property's range); the quick tier uses fewer draws
@@ -1211,6 +1800,11 @@ def run(ctx):
     # random histories on the same objects (after the main stream, whose draws for a given seed stay what they were)
     for _ in range(48 if ctx.thorough else 16):
         run_history(ctx, random_history_spec(ctx))
+    # histories over encodings (specs from the encoding generator: the draws above stay what they were)
+    g = enc_rng(ctx)
+    for _ in range(9 if ctx.thorough else 3):
+        run_history(ctx, {"script": "encodings", "kind": str(g.choice(["positive", "complex", "mixed"])), "nv": int(g.choice([1, 2, 3, 4])),
+                          "hseed": int(g.integers(1, 2 ** 31 - 1)), "shuffle": True, "n_ops": 13 if ctx.thorough else 7})
 
 
 def table_cases(ctx):
@@ -1279,6 +1873,7 @@ def replay(ctx, rec):
         print("replay: no stored case; re-running the generated cases")
         return run(ctx)
     print("replay of", case.get("state"), "nv", case.get("nv"), "nh", case.get("nh"), "observable", case.get("observable"))
-    check_state(ctx, case["state"], case["nv"], case["nh"], case.get("na", 0), case["params"], very_long=True)
+    check_state(ctx, case["state"], case["nv"], case["nh"], case.get("na", 0), case["params"], with_model=not case.get("sample_dtype"),
+                very_long=True, encodings="all")
     for f in ctx.failures[:5]:
         print("  fails:", f["what"], f["detail"][:200])
